@@ -13,7 +13,7 @@ CLAIMED = {
  "C01": ("differential: ruzstd vs original data / spec executor, 4 drivers, frames from 3 generated sources (reference compressor, reference entropy stage on perturbed parses, spec-directed synthesizer arbitrated by libzstd)", "5 C01"),
  "C03": ("fuzzing: format-aware mutational PBT over valid frames (walker field map) through every entry point, on new and on warm decoders, with reuse check afterwards; a hostile-dictionary stage (dictionaries that parse but lie, used by frames built against the honest dictionary); a format-extremes stage (constructed blocks carrying the most sequences / largest lengths the format can express, under a heap ceiling, also executed by the instrumented binary with overflow checks) + coverage-guided libFuzzer/ASan targets (bytes, arbitrary-decoded frame specs through the synthesizer, hostile dictionaries); a case deadline turns non-termination into a violation", "5 C03, 13.1"),
  "C04": ("model-based stateful PBT: generated op lists on RingBuffer / DecodeBuffer vs VecDeque model under a canary+poison allocator (an inspecting reader notices never-written bytes handed to it) and, twice more, with every buffer flush against an inaccessible page at its end / start (out-of-bounds reads and writes kill the process; the launcher localises the case); thorough adds ASan (libFuzzer targets) and Miri replays of the same op lists", "5 C04"),
- "C05": ("PBT with counting allocator and closed-form bounds over every decode strategy on new and warm decoders; synthesized over-long blocks (matches, 20-bit literals, unreferenced literals) arbitrated by libzstd; arbitrary configured limits around exactly chosen windows (held bytes <= limit + request + one block); long frames (hundreds of blocks, tens to hundreds of windows of output: peak heap independent of the output length)", "5 C05"),
+ "C05": ("PBT with counting allocator and closed-form bounds over every decode strategy on new and warm decoders; synthesized over-long blocks (matches, 20-bit literals, unreferenced literals; RLE and Raw blocks with a Block_Size up to 2^21 - 1) arbitrated by libzstd; arbitrary configured limits around exactly chosen windows (held bytes <= limit + request + one block); long frames (hundreds of blocks, tens to hundreds of windows of output: peak heap independent of the output length)", "5 C05"),
  "C06": ("stateful PBT: generated driver programs (decode/drain schedules, sinks, source fragmentation) against ground-truth content", "5 C06"),
  "C07": ("differential stateful PBT: reused vs fresh decoder after generated histories (valid, dictionary, truncated, corrupted; completed, abandoned, failed), leak-sensitive probes built by patching synthesized frames, decoded in one go or block by block, optionally with a window limit set between frames", "5 C07"),
  "C09": ("PBT with reference-trained dictionaries (non-default repeat offsets, superseded editions under one id, content padded to several hundred KiB), reference compressor and dictionary-aware synthesizer; histories on one decoder; the spec walker arbitrates offsets beyond dictionary + output", "5 C09"),
@@ -26,7 +26,7 @@ CLAIMED = {
  "C15": ("PBT with validity predicate: independent strict frame walker over compressor output (also through drains that take only part of a write) + closed-form size bound; the built-in match finder also in other window configurations", "5 C15"),
  "C16": ("PBT over programs: a scripted Matcher replaying generated valid parses / libzstd parses and a history-keeping Matcher that knows only what is committed to it (level-dependent windows, reuse); libzstd + own decoder + walker confirm", "5 C16"),
  "C17": ("stateful PBT + exhaustive small family: validity predicate over every sequence reported by the built-in matcher across eviction/skip/reset histories", "5 C17"),
- "C18": ("differential PBT across four separately built binaries ({std,no_std} x {hash,no hash}) over a generated corpus, incl. reused compressors / decoders and the hand-written io_nostd routines on their boundaries", "5 C18"),
+ "C18": ("differential PBT across four separately built binaries ({std,no_std} x {hash,no hash}) over a generated corpus, incl. reused compressors / decoders and the hand-written io_nostd routines on their boundaries; in hash builds the appended four bytes are checked against the checksum the build's own decoder computes", "5 C18"),
  "C19": ("PBT over the real CLI binary: generated files and names (incl. non-UTF-8) x option matrix x stale destinations x files with zero chunks x failure scenarios, libzstd as arbiter of the archive", "5 C19"),
  "C20": ("PBT with bounded work: generated sources x estimates (wrong, zero, boundary-seeking around the sampler's segment arithmetic) x sizes x reader chunking; oracle = documented size bound + termination (deadline overrun = violation)", "5 C20"),
  "C14": ("exhaustive enumeration of finite tables / header spaces (codes, sequence counts, block / frame / literals headers, RLE-mode symbols, repeat-offset machine) against RFC 8878 tables (cross-checked with libzstd source) + generated stages: sequences with offsets up to 23 bits through the real block compressor and bit writer read back by the specification walker, forbidden regenerated block sizes", "5 C14"),
